@@ -9,5 +9,15 @@ CHECKS = {
              "weights and lambda > 0. The float64 error bound is NOT decided.",
         technique="static analysis: AST expression normal-form comparison against LDL' identities, affine loop coverage",
     ),
+    "C11": dict(
+        category="proof",
+        text="Closed obligation set over dekad.py: the constructor arms are evaluated in an interval domain (day sub-intervals 1-10/11-20/21-31 "
+             "map to single dekads) and the decoders in the exact domain a*q+t[r] for v=36q+r (digit extractions for every raw value, "
+             "encode(decode(v))==v); label field layout writer==reader; six comparisons/hash/+/- are sibling-consistent operations on the raw "
+             "integer with the translation identities checked on normal forms; end_date/ndays share one resolution delta; accessor properties "
+             "apply the attribute of the same name.",
+        note="Trusted: CPython ast; mixed-radix uniqueness lemma; datetime/timedelta arithmetic. dekad.py is never imported or executed.",
+        technique="static analysis: abstract interpretation (interval + exact residue/affine domain) of expression ASTs, sibling descriptor comparison",
+    ),
 }
 NOT_APPLICABLE = {}
